@@ -20,6 +20,7 @@
 package c02
 
 import (
+	"context"
 	"encoding/json"
 	"fmt"
 	"strings"
@@ -46,6 +47,7 @@ type Work struct {
 	Core     string `json:"core"`
 	NoTrail  bool   `json:"no_trail,omitempty"` // no trailing tick(): the wrapped program is the script's last statement
 	Elem     string `json:"elem,omitempty"`     // element type of the channels the blocked cores use (default int64)
+	LibCtx   int    `json:"lib_ctx,omitempty"`  // how the earlier run that defined the library was made: 0 cancellable context (never cancelled), 1 context.Background(), 2 vm.Execute, 3 vm.Execute with nil options
 }
 
 var cores = []string{
@@ -55,7 +57,7 @@ var cores = []string{
 	"block-recv-nested", "block-send-expr-arg",
 	"spin-cfor-empty", "spin-true-empty", "spin-forin-empty", "spin-recursion-quiet", "spin-forin-big", "spin-anon-expr", "block-recv-after-first",
 	"block-range-body-recv", "block-range-shared", "spin-fib", "spin-mutual",
-	"lib-spin-5", "lib-spin-v", "lib-block-5", "lib-block-v", "lib-spin-1",
+	"lib-spin-5", "lib-spin-v", "lib-block-5", "lib-block-v", "lib-spin-1", "lib-send", "lib-range", "lib-rec", "lib-closure",
 	"block-fanin-send", "block-fanout-recv",
 	"block-recv-if", "block-recv-arg", "block-recv-switch",
 }
@@ -68,13 +70,17 @@ func libspinv(a, rest...) { for { tick() } }
 func libspin1(a) { for { tick() } }
 func libblock5(a, b, c, d, e) { ch = make(chan int64); <-ch }
 func libblockv(a, rest...) { ch = make(chan int64); v, ok = <-ch }
+func libsend(a) { ch = make(chan int64); ch <- a }
+func librange(a, b, c, d, e, f) { for v in make(chan int64) { tick() } }
+func librec(n) { if n > 0 { librec(n - 1) }; tick() }
+func libmk() { return func() { for { tick() } } }
 `
 
 var wrapKinds = []struct {
 	k string
 	n int // number of variants
 }{
-	{"if", 3}, {"switch", 2}, {"loop", 4}, {"try-body", 5}, {"catch", 2}, {"finally", 2},
+	{"if", 3}, {"switch", 2}, {"loop", 4}, {"try-body", 5}, {"catch", 2}, {"finally", 5},
 	{"func", 7}, {"funcvar", 2}, {"anon", 2}, {"module", 1}, {"go", 5}, {"defer", 3}, {"expr", 34}, {"hostcallback", 2},
 }
 
@@ -150,6 +156,14 @@ func renderCore(core string, u string) string {
 		return "libblock5(1, 2, 3, 4, 5)"
 	case "lib-block-v":
 		return "libblockv([1, 2]...)"
+	case "lib-send":
+		return "libsend(1)"
+	case "lib-range":
+		return "librange(1, 2, 3, 4, 5, 6)"
+	case "lib-rec":
+		return "for { librec(3) }"
+	case "lib-closure":
+		return "f" + u + " = libmk()\nf" + u + "()"
 	case "block-range-body-recv":
 		// the loop body takes an item the range already counted as buffered
 		return "c" + u + " = make(chan int64, 4)\nc" + u + " <- 1\nc" + u + " <- 2\nc" + u + " <- 3\nc" + u + " <- 4\nfor k" + u + " in c" + u + " { v" + u + " = <-c" + u + " }"
@@ -250,8 +264,18 @@ func wrap(w W, body, u string) string {
 		}
 		return "try { throw \"x\" } catch {\n" + body + "\n} finally { tick() }"
 	case "finally":
-		if w.A%2 == 0 {
+		if w.A%5 == 0 {
 			return "try { } catch e" + u + " { } finally {\n" + body + "\n}"
+		}
+		switch w.A % 5 {
+		case 2:
+			// whether a finally runs after its catch block failed is C09's business; if it does, an
+			// interruption inside it is still an interruption
+			return "try { throw \"x\" } catch e" + u + " { throw \"boom\" } finally {\n" + body + "\n}"
+		case 3:
+			return "for {\ntry { break } catch e" + u + " { } finally {\n" + body + "\n}\n}"
+		case 4:
+			return "func t" + u + "() {\ntry { return 1 } catch e" + u + " { } finally {\n" + body + "\n}\n}\nt" + u + "()"
 		}
 		return "try { throw \"x\" } catch e" + u + " { } finally {\n" + body + "\n}"
 	case "func":
@@ -427,6 +451,9 @@ func (Prop) Gen(seed int64, tier string) *harness.Case {
 	r := harness.Rand(seed)
 	var w Work
 	w.Core = cores[r.Intn(len(cores))]
+	if strings.HasPrefix(w.Core, "lib-") {
+		w.LibCtx = r.Intn(4)
+	}
 	depth := r.Intn(4)
 	if r.Intn(8) == 0 {
 		depth = 4 + r.Intn(2)
@@ -640,7 +667,18 @@ func run(t *testing.T, c *harness.Case, verbose bool, onlyDefers bool) *harness.
 		mainTask = sim.Spawn("main", func() {
 			if strings.HasPrefix(w.Core, "lib-") {
 				// an earlier, completed run under another context defined the library
-				if _, perr := vm.ExecuteContext(sim.NewCtx(), e, &vm.Options{Debug: false}, prelude); perr != nil {
+				var perr error
+				switch w.LibCtx % 4 {
+				case 0:
+					_, perr = vm.ExecuteContext(sim.NewCtx(), e, &vm.Options{Debug: false}, prelude)
+				case 1:
+					_, perr = vm.ExecuteContext(context.Background(), e, &vm.Options{Debug: false}, prelude)
+				case 2:
+					_, perr = vm.Execute(e, &vm.Options{Debug: false}, prelude)
+				default:
+					_, perr = vm.Execute(e, nil, prelude)
+				}
+				if perr != nil {
 					mainErr = perr
 					mainDone = true
 					return
